@@ -342,3 +342,56 @@ param = function(
   bindings=PB, props=('C02',))
 param.vararg = 'init_args'
 param.defaults = {'unbox': True}
+
+# ---- Scope.variable: an existing variable is never re-initialised; a missing one is created only in a mutable collection ----
+InitFnV = opaque('VariableInitFn', is_str=False, nullable=True)
+InitFnV.pytypes = ('function',)
+has_var = UFn('scope_has_variable', [Scope, Name, SName], BOOL, 'self.has_variable(col, name)')
+col_empty = UFn('scope_collection_empty', [Scope, Name], BOOL, 'self.is_collection_empty(col)')
+var_init_value = UFn('variable_init_value', [InitFnV, ArgsT, KwT], VarVal, 'init_fn(*init_args, **init_kwargs)')
+VarHandle = Union('VariableHandle', [Ctor('VariableHandle', [('scope', Scope), ('collection', Name), ('name', SName), ('unbox', BOOL)], pytypes=('Variable',))])
+
+
+def _var_init_call(ex, f, a, kw):
+  star = [x[1] for x in a if isinstance(x, tuple) and x and x[0] == '*']
+  return ex.call_value(var_init_value, [f, star[0], kw['**']], {})
+
+
+InitFnV.call_hook = _var_init_call
+VB = dict(FB)
+VB.update({
+  'Scope.reserve': Effect('Scope.reserve', [Scope, SName, Name]),
+  'Scope.has_variable': has_var,
+  'Scope.is_mutable_collection': is_mutable_collection,
+  'Scope.is_collection_empty': col_empty,
+  'Scope.put_variable': Effect('Scope.put_variable', [Scope, Name, SName, VarVal]),
+  'Variable': Handler('Variable', lambda ex, a, kw: SV(VarHandle, VarHandle.mk('VariableHandle', ex.coerce(a[0], Scope).t, ex.coerce(a[1], Name).t, ex.coerce(a[2], SName).t, ex.coerce(kw['unbox'], BOOL).t)), 'Variable(scope, col, name, unbox=): a handle'),
+  'cast': Handler('cast', lambda ex, a, kw: a[1], 'typing.cast: identity'),
+  'Union': NONEV, 'T': NONEV,
+  'errors.ScopeCollectionNotFound': TypeTag('ScopeCollectionNotFound', (TypeTag('Exception'),)),
+  'errors.ScopeVariableNotFoundError': TypeTag('ScopeVariableNotFoundError', (TypeTag('Exception'),)),
+})
+VEXISTS = 'scope_has_variable(self, col, name)'
+CANNOT = '(not mem(self.mutable, col) or init_fn is None)'
+variable = function(
+  F + '::Scope.variable', params=[('self', Scope), ('col', Name), ('name', SName), ('init_fn', InitFnV), ('init_args', ArgsT), ('unbox', BOOL), ('init_kwargs', KwT)],
+  returns=VarHandle,
+  raises={
+    'ScopeCollectionNotFound': f'not {VEXISTS} and {CANNOT} and scope_collection_empty(self, col)',
+    'ScopeVariableNotFoundError': f'not {VEXISTS} and {CANNOT} and not scope_collection_empty(self, col)',
+  },
+  ensures=[
+    # the name is reserved for this collection (name clashes with sub-scopes / other collections are detected there)
+    "ncalls('Scope.reserve') == 1 and call_args('Scope.reserve')[1] == name and call_args('Scope.reserve')[2] == col",
+    # an existing variable is handed out as it is: init_fn is not run, nothing is written
+    f"implies({VEXISTS}, ncalls('Scope.put_variable') == 0)",
+    # a missing variable of a mutable collection is created from init_fn(*init_args, **init_kwargs), once, under (col, name)
+    f"implies(not {VEXISTS}, ncalls('Scope.put_variable') == 1 and call_args('Scope.put_variable')[1] == col and call_args('Scope.put_variable')[2] == name "
+    "and call_args('Scope.put_variable')[3] == variable_init_value(init_fn, init_args, init_kwargs))",
+    # the handle addresses exactly this scope / collection / name
+    'result.scope == self and result.collection == col and result.name == name and result.unbox == unbox',
+  ],
+  bindings=VB, props=('C02',))
+variable.vararg = 'init_args'
+variable.kwarg = 'init_kwargs'
+variable.defaults = {'unbox': True, 'init_fn': None}
